@@ -97,7 +97,8 @@ func (c C05Case) Desc() string {
 
 var c05msgCache = map[[2]int][]byte{}
 
-// c05msg builds a well-formed message with the given body size (multiple of 4, 0 or >= 8).
+// c05msg builds a well-formed message with the given body size (0 or >= 8; a size that is not a
+// multiple of four gives a message whose last AVP is sent without padding).
 func c05msg(body, seq int) []byte {
 	k := [2]int{body, seq}
 	if b, ok := c05msgCache[k]; ok {
@@ -112,6 +113,12 @@ func c05msg(body, seq int) []byte {
 		nodes = append(nodes, refcodec.Node{Code: 60001, Payload: p})
 	}
 	b := refcodec.EncodeMessage(refcodec.Header{Version: 1, Flags: 0x80, Code: 257, App: 0, HbH: uint32(seq + 1), E2E: uint32(1000 + body)}, nodes)
+	if body%4 != 0 {
+		// a peer that neither sends nor counts the padding of its last AVP: the declared message
+		// length is not a multiple of four
+		b = append([]byte{}, b[:20+body]...)
+		b[1], b[2], b[3] = byte((20+body)>>16), byte((20+body)>>8), byte(20+body)
+	}
 	if len(b) != 20+body {
 		panic("c05msg size")
 	}
@@ -185,7 +192,16 @@ func c05Eval(cs C05Case) string {
 			if err != nil {
 				return fmt.Sprintf("message %d: %v", k, err)
 			}
-			if !bytes.Equal(b, w) {
+			cmp := w
+			if len(w)%4 != 0 {
+				// the peer sent its last AVP unpadded: the library's own serialisation of the message pads it
+				cmp = append(append([]byte{}, w...), make([]byte, 4-len(w)%4)...)
+				// (the header keeps the length the message arrived with)
+				if len(b) >= 4 {
+					cmp[1], cmp[2], cmp[3] = b[1], b[2], b[3]
+				}
+			}
+			if !bytes.Equal(b, cmp) {
 				return fmt.Sprintf("message %d differs from message %d of the reference framing (got %d bytes hbh=%d, want %d bytes hbh=%d)", k, k, len(b), m.Header.HopByHopID, len(w), refHbH(w))
 			}
 			sum += len(w)
@@ -331,6 +347,28 @@ func c05Enum(ctx *ev.Ctx, fn func(C05Case)) string {
 		}
 		rec(nil, nil)
 	}
+	// declared lengths that are not a multiple of four, next to aligned messages
+	{
+		us := []int{9, 29, 1017, 1023, 8, 1024}
+		var rec func(sz []int, un bool)
+		rec = func(sz []int, un bool) {
+			if len(sz) > 0 && un {
+				for _, buffered := range []bool{false, true} {
+					for _, unit := range []int{0, 1, 7} {
+						emit(C05Case{Sizes: append([]int{}, sz...), Buffered: buffered, Unit: unit, Trunc: -1, BadLen: -1})
+						emit(C05Case{Sizes: append([]int{}, sz...), Buffered: buffered, Unit: unit, Trunc: -1, BadLen: -1, EOFData: true})
+					}
+				}
+			}
+			if len(sz) == 3 {
+				return
+			}
+			for _, b := range us {
+				rec(append(sz, b), un || b%4 != 0)
+			}
+		}
+		rec(nil, false)
+	}
 	// declared length 0..19 as the very first header
 	for l := 0; l < 20; l++ {
 		for _, buffered := range []bool{false, true} {
@@ -448,7 +486,7 @@ func c05Enum(ctx *ev.Ctx, fn func(C05Case)) string {
 			}
 		}
 	}
-	return "all sequences of <=3 messages over body sizes {0,8,1016,1024,1028,4100,70000}; read through a scripted io.Reader and through bufio.NewReader on top of it; all cut vectors with <=2 (thorough 3) cuts - every offset for streams <=200 bytes, otherwise every offset within +-3 (thorough: +-24 for single messages) of a message border, header/body border, 1 KiB and 4 KiB boundary (quick: three large messages or more than 120 candidate offsets: <=1 cut; thorough: 3 cuts where the candidate set has <=70 offsets and no 70 000-byte message is involved, otherwise 2, and 1 for three messages including the 70 000-byte one); uniform 1..40-byte readers; truncation at every such offset (plain, 7-byte reads, and with one earlier cut for short streams); a header declaring each length 0..19 followed by 40 more bytes after every sequence of <=2 messages and as the first header. and messages whose last AVP declares 1..2000 bytes more than the (truthful) message holds, between two other messages: rejected, following message still read at its offset.; the base and single-cut cases also with a source that returns io.EOF together with the last bytes; all histories of <=3 reads over bodies {8,600,1016,2036,5000} with diam.MessageBufferLength set to one of {1024,4096,512} before each read. Distinct by (sizes, cuts, unit, bufio, truncation, bad length, overstatement, EOF mode, buffer lengths)."
+	return "all sequences of <=3 messages over body sizes {0,8,1016,1024,1028,4100,70000}; read through a scripted io.Reader and through bufio.NewReader on top of it; all cut vectors with <=2 (thorough 3) cuts - every offset for streams <=200 bytes, otherwise every offset within +-3 (thorough: +-24 for single messages) of a message border, header/body border, 1 KiB and 4 KiB boundary (quick: three large messages or more than 120 candidate offsets: <=1 cut; thorough: 3 cuts where the candidate set has <=70 offsets and no 70 000-byte message is involved, otherwise 2, and 1 for three messages including the 70 000-byte one); uniform 1..40-byte readers; truncation at every such offset (plain, 7-byte reads, and with one earlier cut for short streams); a header declaring each length 0..19 followed by 40 more bytes after every sequence of <=2 messages and as the first header. and messages whose last AVP declares 1..2000 bytes more than the (truthful) message holds, between two other messages: rejected, following message still read at its offset.; the base and single-cut cases also with a source that returns io.EOF together with the last bytes; sequences of <=3 messages with bodies from {9, 29, 1017, 1023, 8, 1024} containing at least one whose declared length is not a multiple of four (last AVP sent unpadded); all histories of <=3 reads over bodies {8,600,1016,2036,5000} with diam.MessageBufferLength set to one of {1024,4096,512} before each read. Distinct by (sizes, cuts, unit, bufio, truncation, bad length, overstatement, EOF mode, buffer lengths)."
 }
 
 func runC05(ctx *ev.Ctx) {
